@@ -328,8 +328,10 @@ func longestPrefix(s1, s2 string) int {
 			}
 			state = startByte
 		case endByte:
+			if state == startByte { // 不在参数中的 } 只是普通字符，比如 /path}
+				endIndex = i
+			}
 			state = endByte
-			endIndex = i
 		}
 
 		if s1[i] != s2[i] {
